@@ -8,7 +8,7 @@
     the code after the fix commit "coinswap routed swaps return the intermediate standard coin
     to the sender" (before it, leg 1 of a routed swap paid the recipient: corpus/C02). *)
 From Irismod Require Import Coinswap.Model Coinswap.Check Coinswap.ProofsArith Coinswap.ProofsSpec
-  Coinswap.Proofs Coinswap.ProofsValue.
+  Coinswap.Proofs Coinswap.ProofsValue Coinswap.ProofsSound.
 
 Local Open Scope Z_scope.
 
@@ -183,6 +183,37 @@ Theorem failed_msg_changes_nothing :
 Proof. exact failed_step_changes_nothing. Qed.
 Print Assumptions failed_msg_changes_nothing.
 
+(** ** the check's predicate is true of every model step
+
+    [c02_step] (Check.v) is the decidable predicate the check evaluates on the IMPLEMENTATION's
+    observed worlds: it recomputes sold / bought / deposited / withdrawn / minted / tax from the
+    observed ledger and demands the full balance sheet, bounds, deadline, supply frame and
+    registry.  On the model's own worlds it answers 0, for messages signed by users (not a pool
+    escrow address, not a module account) and a creation fee not denominated in an LPT denom. *)
+Theorem check_predicate_holds_on_model_step :
+  forall (s : state) (m : msg) (s' : state) (r : list Z) (o : obs),
+    Inv s -> signer_ok m -> p_cdenom (par s) <= 1000 ->
+    exec s m = Ret (s', r) -> o_code o = 0 ->
+    c02_step (par s) m o (world_of s) (world_of s') = 0.
+Proof. exact c02_step_model_ok. Qed.
+Print Assumptions check_predicate_holds_on_model_step.
+
+Theorem check_predicate_holds_on_failed_step :
+  forall (s : state) (m : msg) (f : outcome) (o : obs),
+    exec s m = Fail f -> o_code o <> 0 ->
+    c02_step (par s) m o (world_of s) (world_of s) = 0.
+Proof. exact c02_step_model_fail. Qed.
+Print Assumptions check_predicate_holds_on_failed_step.
+
+(** over whole histories, both predicates (C01 and C02), with the outcome code the model gives
+    (the model never fails with code 0): every step of every history answers (0, 0) *)
+Theorem model_history_passes_both_predicates :
+  forall (ms : list msg) (s : state),
+    Inv s -> Forall signer_ok ms -> p_cdenom (par s) <= 1000 ->
+    Forall (fun c => c = (0, 0)) (prop_codes s ms).
+Proof. exact model_history_passes. Qed.
+Print Assumptions model_history_passes_both_predicates.
+
 (** ** non-vacuity: two pools, a routed sell and a routed buy to a recipient other than the
     sender, bounds exact; the sender's and the recipient's standard coin do not move *)
 Definition ex2_par : params := mkParams 3000000000000000 2000000000000000 400000000000000000 std 5000.
@@ -208,3 +239,15 @@ Example c02_creation_fee :
   let s' := run ex2_s0 [MAdd 0 1 1000000 1000000 1 2000] in
   bal (led s') acct_feecol 0 = 2000 /\ supply s' 0 = supply ex2_s0 0 - 3000 /\ supply s' (lpt 1) = 1000000.
 Proof. vm_compute. repeat split; reflexivity. Qed.
+
+(** the hypotheses of the history theorem hold of that history, and the predicates indeed
+    evaluate to (0, 0) at each of its steps (computed, as the check computes them) *)
+Example c02_history_hypotheses :
+  Inv ex2_s0 /\ Forall signer_ok (ex2_setup ++ [ex2_sell]) /\ p_cdenom (par ex2_s0) <= 1000
+  /\ prop_codes ex2_s0 (ex2_setup ++ [ex2_sell]) = [(0, 0); (0, 0); (0, 0)].
+Proof.
+  split; [apply Inv_genesis; [reflexivity|unfold P18; simpl; lia|unfold P18; simpl; lia]|].
+  split; [repeat constructor; unfold acct_feecol, acct_module; lia|].
+  split; [simpl; unfold std; lia|].
+  vm_compute. reflexivity.
+Qed.
